@@ -106,6 +106,192 @@ async fn canary_ref_client(cfg: &Cfg, server_port: u16, rng: &mut Rng) -> Result
     r
 }
 
+#[derive(Clone, Copy, Debug, PartialEq)]
+enum Via {
+    Tcp,
+    Tls,
+    Ws,
+    Wss,
+    Quic,
+}
+
+fn tls_client_config(alpn: bool) -> Option<tokio_rustls::rustls::ClientConfig> {
+    use tokio_rustls::rustls::pki_types::pem::PemObject;
+    use tokio_rustls::rustls::pki_types::CertificateDer;
+    let _ = tokio_rustls::rustls::crypto::aws_lc_rs::default_provider().install_default();
+    let cert = CertificateDer::from_pem_file(verif_root().join("certs").join("ca.crt")).ok()?;
+    let mut roots = tokio_rustls::rustls::RootCertStore::empty();
+    roots.add(cert).ok()?;
+    let mut cfg = tokio_rustls::rustls::ClientConfig::builder().with_root_certificates(roots).with_no_client_auth();
+    if alpn {
+        cfg.alpn_protocols = vec![b"http/1.1".to_vec()];
+    }
+    Some(cfg)
+}
+
+/// Reference client -> shipped server -> echo target over the named transport; Ok = the echo came back intact.
+async fn canary_via(cfg: &Cfg, server_port: u16, via: Via, rng: &mut Rng) -> Result<(), String> {
+    use futures::{SinkExt, StreamExt};
+    let l = tokio::net::TcpListener::bind("127.0.0.1:0").await.map_err(|e| e.to_string())?;
+    let tport = l.local_addr().unwrap().port();
+    let echo = tokio::spawn(async move {
+        if let Ok((mut s, _)) = l.accept().await {
+            let mut b = [0u8; 4096];
+            while let Ok(n) = s.read(&mut b).await {
+                if n == 0 || s.write_all(&b[..n]).await.is_err() {
+                    break;
+                }
+            }
+        }
+    });
+    let now = std::time::SystemTime::now().duration_since(std::time::UNIX_EPOCH).unwrap().as_secs();
+    let mut c = RefClient::new(cfg, &refimpl::addr::Addr::V4([127, 0, 0, 1], tport), rng, now, ClientOpts::default());
+    let payload = rng.bytes(300);
+    let w = c.write(&payload, rng);
+    // a byte pipe over the transport
+    enum Pipe {
+        Stream(Box<dyn AsyncStream>),
+        Ws(Box<dyn WsPipe>),
+        Quic(quinn::SendStream, quinn::RecvStream, quinn::Connection, quinn::Endpoint),
+    }
+    trait AsyncStream: tokio::io::AsyncRead + tokio::io::AsyncWrite + Unpin + Send {}
+    impl<T: tokio::io::AsyncRead + tokio::io::AsyncWrite + Unpin + Send> AsyncStream for T {}
+    #[allow(async_fn_in_trait)]
+    trait WsPipe: Send {
+        fn send<'a>(&'a mut self, b: Vec<u8>) -> std::pin::Pin<Box<dyn std::future::Future<Output = Result<(), String>> + Send + 'a>>;
+        fn recv<'a>(&'a mut self) -> std::pin::Pin<Box<dyn std::future::Future<Output = Result<Vec<u8>, String>> + Send + 'a>>;
+    }
+    impl<T: tokio::io::AsyncRead + tokio::io::AsyncWrite + Unpin + Send> WsPipe for tokio_websockets::WebSocketStream<T> {
+        fn send<'a>(&'a mut self, b: Vec<u8>) -> std::pin::Pin<Box<dyn std::future::Future<Output = Result<(), String>> + Send + 'a>> {
+            Box::pin(async move { SinkExt::send(self, tokio_websockets::Message::binary(bytes::Bytes::from(b))).await.map_err(|e| e.to_string()) })
+        }
+        fn recv<'a>(&'a mut self) -> std::pin::Pin<Box<dyn std::future::Future<Output = Result<Vec<u8>, String>> + Send + 'a>> {
+            Box::pin(async move {
+                loop {
+                    match self.next().await {
+                        None => return Err("websocket closed".to_string()),
+                        Some(Err(e)) => return Err(e.to_string()),
+                        Some(Ok(m)) if m.is_binary() => return Ok(m.into_payload().to_vec()),
+                        Some(Ok(_)) => continue,
+                    }
+                }
+            })
+        }
+    }
+    let connect = async {
+        let tcp = || async { tokio::net::TcpStream::connect(("127.0.0.1", server_port)).await.map_err(|e| format!("connect: {e}")) };
+        let tls = |s: tokio::net::TcpStream| async move {
+            let cfg = tls_client_config(false).ok_or("tls config")?;
+            let name = tokio_rustls::rustls::pki_types::ServerName::try_from("localhost").map_err(|e| e.to_string())?;
+            tokio_rustls::TlsConnector::from(Arc::new(cfg)).connect(name, s).await.map_err(|e| format!("tls handshake: {e}"))
+        };
+        let uri: http::Uri = format!("ws://localhost:{server_port}/ws").parse().unwrap();
+        Ok::<Pipe, String>(match via {
+            Via::Tcp => Pipe::Stream(Box::new(tcp().await?)),
+            Via::Tls => Pipe::Stream(Box::new(tls(tcp().await?).await?)),
+            Via::Ws => Pipe::Ws(Box::new(tokio_websockets::ClientBuilder::from_uri(uri).connect_on(tcp().await?).await.map_err(|e| format!("websocket upgrade: {e}"))?.0)),
+            Via::Wss => Pipe::Ws(Box::new(tokio_websockets::ClientBuilder::from_uri(uri).connect_on(tls(tcp().await?).await?).await.map_err(|e| format!("websocket upgrade: {e}"))?.0)),
+            Via::Quic => {
+                let cfg = tls_client_config(true).ok_or("tls config")?;
+                let mut ep = quinn::Endpoint::client("0.0.0.0:0".parse().unwrap()).map_err(|e| e.to_string())?;
+                let qc = quinn::crypto::rustls::QuicClientConfig::try_from(cfg).map_err(|e| e.to_string())?;
+                ep.set_default_client_config(quinn::ClientConfig::new(Arc::new(qc)));
+                let conn = ep.connect(format!("127.0.0.1:{server_port}").parse().unwrap(), "localhost").map_err(|e| e.to_string())?.await.map_err(|e| format!("quic handshake: {e}"))?;
+                let (tx, rx) = conn.open_bi().await.map_err(|e| e.to_string())?;
+                Pipe::Quic(tx, rx, conn, ep)
+            }
+        })
+    };
+    let mut pipe = match tokio::time::timeout(Duration::from_secs(4), connect).await {
+        Ok(Ok(p)) => p,
+        Ok(Err(e)) => {
+            echo.abort();
+            return Err(e);
+        }
+        Err(_) => {
+            echo.abort();
+            return Err("transport handshake: no answer within 4 s".into());
+        }
+    };
+    let r = async {
+        match &mut pipe {
+            Pipe::Stream(s) => s.write_all(&w).await.map_err(|e| e.to_string())?,
+            Pipe::Ws(s) => s.send(w.clone()).await?,
+            Pipe::Quic(tx, ..) => tx.write_all(&w).await.map_err(|e| e.to_string())?,
+        }
+        let mut got = Vec::new();
+        let mut buf = vec![0u8; 8192];
+        loop {
+            let chunk: Vec<u8> = match &mut pipe {
+                Pipe::Stream(s) => {
+                    let n = s.read(&mut buf).await.map_err(|e| format!("read: {e}"))?;
+                    if n == 0 {
+                        return Err("server closed the connection without relaying".to_string());
+                    }
+                    buf[..n].to_vec()
+                }
+                Pipe::Ws(s) => s.recv().await?,
+                Pipe::Quic(_, rx, ..) => match rx.read(&mut buf).await.map_err(|e| format!("read: {e}"))? {
+                    Some(n) => buf[..n].to_vec(),
+                    None => return Err("server finished the stream without relaying".to_string()),
+                },
+            };
+            let p = c.read(&chunk).map_err(|e| format!("reference cannot read the server's answer: {e}"))?;
+            got.extend_from_slice(&p);
+            if got.len() >= payload.len() {
+                return if got == payload { Ok(()) } else { Err("echo differs".to_string()) };
+            }
+        }
+    };
+    let out = match tokio::time::timeout(Duration::from_secs(6), r).await {
+        Ok(x) => x,
+        Err(_) => Err("no echo through the server within 6 s".to_string()),
+    };
+    echo.abort();
+    out
+}
+
+/// Reference Shadowsocks UDP client -> shipped server's datagram relay -> UDP echo target.
+async fn canary_udp(cfg: &Cfg, server_port: u16, rng: &mut Rng) -> Result<(), String> {
+    let m = cfg.method().ok_or("not shadowsocks")?;
+    let t = tokio::net::UdpSocket::bind("127.0.0.1:0").await.map_err(|e| e.to_string())?;
+    let tport = t.local_addr().unwrap().port();
+    let echo = tokio::spawn(async move {
+        let mut b = vec![0u8; 70000];
+        while let Ok((n, from)) = t.recv_from(&mut b).await {
+            let _ = t.send_to(&b[..n], from).await;
+        }
+    });
+    let s = tokio::net::UdpSocket::bind("127.0.0.1:0").await.map_err(|e| e.to_string())?;
+    let keys = cfg.ref_client_keys();
+    let target = refimpl::addr::Addr::V4([127, 0, 0, 1], tport);
+    let payload = rng.bytes(200);
+    let now = std::time::SystemTime::now().duration_since(std::time::UNIX_EPOCH).unwrap().as_secs();
+    let sid = rng.next_u64();
+    let wire = if m.is_2022() {
+        let p = refimpl::ss::S22UdpPacket { session_id: sid, packet_id: 1, type_byte: 0, timestamp: now, client_session_id: None, padding: vec![], addr: target.clone(), payload: payload.clone() };
+        refimpl::ss::s22_udp_client_encode(m, &keys, &p, &rng.arr())
+    } else {
+        refimpl::ss::sip004_udp_encode(m, &keys.psk, &rng.bytes(m.key_len()), &target, &payload)
+    };
+    let mut out = Err("no reply from the datagram relay within 2 s".to_string());
+    for _ in 0..2 {
+        let _ = s.send_to(&wire, ("127.0.0.1", server_port)).await;
+        let mut buf = vec![0u8; 70000];
+        if let Ok(Ok((n, _))) = tokio::time::timeout(Duration::from_secs(1), s.recv_from(&mut buf)).await {
+            let dec = if m.is_2022() { refimpl::ss::s22_udp_client_decode(m, &keys.psk, &buf[..n]).map(|p| (p.addr, p.payload)) } else { refimpl::ss::sip004_udp_decode(m, &keys.psk, &buf[..n]) };
+            out = match dec {
+                Ok((a, p)) if p == payload && a == target => Ok(()),
+                Ok(_) => Err("reply differs from what the target sent".to_string()),
+                Err(e) => Err(format!("reference cannot read the reply: {e}")),
+            };
+            break;
+        }
+    }
+    echo.abort();
+    out
+}
+
 /// A canary through the shipped client into a reference server (which plays server and target at once).
 async fn canary_ref_server(cfg: &Cfg, ref_port_listener: tokio::net::TcpListener, client_port: u16, rng: &mut Rng) -> Result<(), String> {
     let cfg2 = cfg.clone();
@@ -205,16 +391,131 @@ pub async fn run(a: &Args) -> Report {
                         rep.violation(format!("C16|server-mode|shadowsocks|{}|{}|documented-value-rejected", cname, mode), format!("server exits with documented mode {mode} / cipher {cname}"), json!({"exit": s.exited, "log": s.log}));
                     } else if got != (want_tcp, want_udp) {
                         rep.violation(format!("C16|server-mode|shadowsocks|{}|listens tcp={} udp={} but documented tcp={} udp={}", mode, got.0, got.1, want_tcp, want_udp), format!("shadowsocks server mode {mode}: sockets differ from the documented set"), json!({"cipher": cname, "port": port, "tcp_ports": format!("{:?}", s.tcp), "udp_ports": format!("{:?}", s.udp), "log": s.log}));
-                    } else if want_tcp && mode != "tcp_and_quic" {
-                        // the name selects the documented algorithm, key size and credential format: the reference must interoperate
-                        match canary_ref_client(&cfg, port, &mut rng).await {
-                            Ok(()) => rep.mon("canaries_ok", 1),
-                            Err(e) => rep.violation(format!("C16|cipher|shadowsocks|{}|reference-client-cannot-use-the-server:{}", cname, crate::panicmon::normalise(&e)), format!("cipher name {cname}: a reference client configured with the same password cannot relay through the server: {e}"), json!({"mode": mode, "password": cfg.server_password(), "log": s.node.log_tail(6)})),
+                    } else {
+                        // the name selects the documented algorithm, key size and credential format on every socket it opens:
+                        // the reference must interoperate over TCP, over the datagram relay and over QUIC alike
+                        if want_tcp {
+                            match canary_ref_client(&cfg, port, &mut rng).await {
+                                Ok(()) => rep.mon("canaries_ok", 1),
+                                Err(e) => rep.violation(format!("C16|cipher|shadowsocks|{}|reference-client-cannot-use-the-server:{}", cname, crate::panicmon::normalise(&e)), format!("cipher name {cname}: a reference client configured with the same password cannot relay through the server: {e}"), json!({"mode": mode, "password": cfg.server_password(), "log": s.node.log_tail(6)})),
+                            }
+                        }
+                        let udp_relay = mode == "udp" || mode == "tcp_and_udp";
+                        let r = canary_udp(&cfg, port, &mut rng).await;
+                        match (udp_relay, r) {
+                            (true, Ok(())) => rep.mon("udp_canaries_ok", 1),
+                            (true, Err(e)) => rep.violation(format!("C16|cipher|shadowsocks|{}|udp|reference-client-cannot-use-the-datagram-relay:{}", cname, crate::panicmon::normalise(&e)), format!("mode {mode}, cipher {cname}: a reference UDP client configured with the same password is not served: {e}"), json!({"mode": mode, "password": cfg.server_password(), "log": s.node.log_tail(6)})),
+                            (false, Ok(())) => rep.violation(format!("C16|server-mode|shadowsocks|{}|datagram-relay-although-not-documented", mode), format!("mode {mode} relays Shadowsocks datagrams although it is documented not to"), json!({"cipher": cname})),
+                            (false, Err(_)) => rep.mon("udp_relay_absent_as_documented", 1),
+                        }
+                        if mode.contains("quic") {
+                            match canary_via(&cfg, port, Via::Quic, &mut rng).await {
+                                Ok(()) => rep.mon("quic_canaries_ok", 1),
+                                Err(e) => rep.violation(format!("C16|cipher|shadowsocks|{}|quic|reference-client-cannot-use-the-server:{}", cname, crate::panicmon::normalise(&e)), format!("mode {mode}, cipher {cname}: a reference client over QUIC is not served: {e}"), json!({"mode": mode, "log": s.node.log_tail(6)})),
+                            }
                         }
                     }
                     s.node.kill();
                 }
             }
+        }
+    }
+    // ---- (1b) transport sections: they change HOW the TCP side is spoken, never WHICH sockets a mode opens
+    let sections: [(&str, bool, bool, bool); 5] = [("ssl", true, false, false), ("ws", false, true, false), ("ssl+ws", true, true, false), ("quic", false, false, true), ("ssl+quic", true, false, true)];
+    for (mi, (mode, want_tcp, want_udp)) in modes.iter().enumerate() {
+        for (si, (sname, ssl, ws, quic)) in sections.iter().enumerate() {
+            if !a.thorough && (mi + si + a.seed as usize) % 3 != 0 && !(*mode == "tcp_and_udp" && *quic) {
+                continue;
+            }
+            let (_, m) = cipher_names()[(mi * 5 + si) % 7];
+            let cfg = Cfg::random(&mut rng, Proto::Ss(m), 0);
+            let port = free_port();
+            let mut e = cfg.server_entry("127.0.0.1", port, mode);
+            if *ssl {
+                e["ssl"] = tls.clone();
+            }
+            if *ws {
+                e["ws"] = json!({"path": "/ws"});
+            }
+            if *quic || mode.contains("quic") {
+                e["quic"] = tls.clone();
+            }
+            let t = tag();
+            let dd = dir.clone();
+            let conf = json!([e]);
+            let st = tokio::task::spawn_blocking(move || start_and_observe("server", &conf, &dd, &t, Duration::from_millis(500))).await.unwrap();
+            rep.evaluations += 1;
+            rep.mon("server_starts_observed", 1);
+            rep.distinct.insert(crate::report::hash_of(&("server-mode-section", mode, sname)));
+            let Ok(mut s) = st else { continue };
+            let got = (s.tcp.contains(&port), s.udp.contains(&port));
+            let sig = format!("C16|server-mode|shadowsocks|{}|sections={}", mode, sname);
+            if has_panic(&s.log, s.exited) || s.exited.is_some() {
+                rep.violation(format!("{sig}|does-not-start"), format!("shadowsocks server mode {mode} with sections {sname} does not start"), json!({"log": s.log, "exit": s.exited}));
+            } else if got != (*want_tcp, *want_udp) {
+                rep.violation(format!("{sig}|listens tcp={} udp={} but documented tcp={} udp={}", got.0, got.1, want_tcp, want_udp), format!("shadowsocks server mode {mode} with sections {sname}: sockets differ from the documented set"), json!({"log": s.log}));
+            } else {
+                if *want_tcp {
+                    let via = match (ssl, ws) {
+                        (true, true) => Via::Wss,
+                        (true, false) => Via::Tls,
+                        (false, true) => Via::Ws,
+                        _ => Via::Tcp,
+                    };
+                    match canary_via(&cfg, port, via, &mut rng).await {
+                        Ok(()) => rep.mon("transport_canaries_ok", 1),
+                        Err(e) => rep.violation(format!("{sig}|tcp-side-not-served-over-{:?}:{}", via, crate::panicmon::normalise(&e)), format!("mode {mode}, sections {sname}: a reference client over {:?} is not served: {e}", via), json!({"log": s.node.log_tail(6)})),
+                    }
+                }
+                let udp_relay = *mode == "udp" || *mode == "tcp_and_udp";
+                match (udp_relay, canary_udp(&cfg, port, &mut rng).await) {
+                    (true, Ok(())) => rep.mon("udp_canaries_ok", 1),
+                    (true, Err(e)) => rep.violation(format!("{sig}|datagram-relay-not-served:{}", crate::panicmon::normalise(&e)), format!("mode {mode}, sections {sname}: the mode documents a datagram relay (udp has priority over quic) but a reference UDP client is not served: {e}"), json!({"log": s.node.log_tail(6)})),
+                    (false, Ok(())) => rep.violation(format!("{sig}|datagram-relay-although-not-documented"), format!("mode {mode}, sections {sname}: relays datagrams although the mode does not say so"), json!({})),
+                    (false, Err(_)) => rep.mon("udp_relay_absent_as_documented", 1),
+                }
+                if mode.contains("quic") {
+                    match canary_via(&cfg, port, Via::Quic, &mut rng).await {
+                        Ok(()) => rep.mon("quic_canaries_ok", 1),
+                        Err(e) => rep.violation(format!("{sig}|quic-side-not-served:{}", crate::panicmon::normalise(&e)), format!("mode {mode}, sections {sname}: a reference client over QUIC is not served: {e}"), json!({"log": s.node.log_tail(6)})),
+                    }
+                }
+            }
+            s.node.kill();
+        }
+    }
+    // VMess / Trojan over every transport section
+    for proto in [Proto::Vmess(3), Proto::Vmess(4), Proto::Trojan] {
+        for (via, ssl, ws, quic) in [(Via::Tls, true, false, false), (Via::Ws, false, true, false), (Via::Wss, true, true, false), (Via::Quic, false, false, true)] {
+            let cfg = Cfg::random(&mut rng, proto, 1);
+            let port = free_port();
+            let mut e = cfg.server_entry("127.0.0.1", port, "tcp");
+            if ssl {
+                e["ssl"] = tls.clone();
+            }
+            if ws {
+                e["ws"] = json!({"path": "/ws"});
+            }
+            if quic {
+                e["quic"] = tls.clone();
+            }
+            let t = tag();
+            let dd = dir.clone();
+            let conf = json!([e]);
+            let st = tokio::task::spawn_blocking(move || start_and_observe("server", &conf, &dd, &t, Duration::from_millis(500))).await.unwrap();
+            rep.evaluations += 1;
+            rep.mon("server_starts_observed", 1);
+            rep.distinct.insert(crate::report::hash_of(&("server-transport", proto.name(), format!("{:?}", via))));
+            let Ok(mut s) = st else { continue };
+            if has_panic(&s.log, s.exited) || s.exited.is_some() {
+                rep.violation(format!("C16|server|{}|{:?}|does-not-start", proto.name(), via), "documented configuration does not start".to_string(), json!({"log": s.log, "exit": s.exited}));
+            } else {
+                match canary_via(&cfg, port, via, &mut rng).await {
+                    Ok(()) => rep.mon("transport_canaries_ok", 1),
+                    Err(e) => rep.violation(format!("C16|server|{}|{:?}|reference-client-not-served:{}", proto.name(), via, crate::panicmon::normalise(&e)), format!("{} server: a reference client over {:?} is not served: {e}", proto.name(), via), json!({"log": s.node.log_tail(6)})),
+                }
+            }
+            s.node.kill();
         }
     }
     // VMess / Trojan servers: TCP always, QUIC (UDP socket) with a quic section
